@@ -190,62 +190,60 @@ def _two_pol_guarded(n):
 
 
 def rule_shortcut(ctx, fi, it):
-    """first assignment of the step: `length if <cond> else ...`"""
-    first = None
-    for n in fi.node.body:
-        if isinstance(n, ast.Assign) and isinstance(n.targets[0], ast.Name) and n.targets[0].id == "h":
-            first = n
-            break
-        if isinstance(n, ast.If) and any(isinstance(s, ast.Assign) and isinstance(s.targets[0], ast.Name) and s.targets[0].id == "h" for s in n.body + n.orelse):
-            first = n
-            break
+    """The pre-loop shortcut takes one step of the whole length.  The parameters are only compared with 0, so each has two
+    order classes (zero / non-zero): all 16 combinations of (alpha, beta_2, beta_3, gamma) are evaluated abstractly and the
+    shortcut may be taken only where one symmetric step is exact: gamma == 0, or the whole linear operator vanishes."""
+    import itertools
+    pkg = ctx.pkg
+    names = [p for p in ("alpha", "beta_2", "beta_3", "gamma") if p in fi.params]
+    if len(names) != 4:
+        ctx.unknown("C08.4", fi, fi.node, "FIBER single-step shortcut", "parameters alpha, beta_2, beta_3, gamma not found")
+        return
     length = fi.params[1]
-    test = None
-    if isinstance(first, ast.Assign) and isinstance(first.value, ast.IfExp):
-        v = first.value
-        if src_of(v.body) == length:
-            test = v.test
-        elif src_of(v.orelse) == length:
-            test = ast.UnaryOp(op=ast.Not(), operand=v.test)
-    elif isinstance(first, ast.If):
-        if any(isinstance(s, ast.Assign) and src_of(s.value) == length for s in first.body):
-            test = first.test
-    if test is None:
-        ctx.unknown("C08.4", fi, first or fi.node, "FIBER single-step shortcut", "initial step selection idiom not recognised")
-        return
-    # dependencies of D_op
-    deps = set()
-    for f, stmt, name, val, conds, depth in it.assign_log:
-        if depth == 0 and name == "D_op" and isinstance(val, Form):
-            deps = {s for s in val.syms() if s in fi.params}
-    if not deps:
-        ctx.unknown("C08.4", fi, first, "D_op dependencies", "cannot determine the parameters D_op depends on")
-        return
-    if isinstance(test, ast.UnaryOp):
-        ctx.unknown("C08.4", fi, first, src_of(test), "negated shortcut condition not analysed")
-        return
-    disj = test.values if isinstance(test, ast.BoolOp) and isinstance(test.op, ast.Or) else [test]
-    for d in disj:
-        conj = d.values if isinstance(d, ast.BoolOp) and isinstance(d.op, ast.And) else [d]
-        zeroed = set()
-        other = False
-        for c in conj:
-            if isinstance(c, ast.Compare) and len(c.ops) == 1 and isinstance(c.ops[0], ast.Eq) and isinstance(c.left, ast.Name) \
-                    and isinstance(c.comparators[0], ast.Constant) and c.comparators[0].value == 0:
-                zeroed.add(c.left.id)
+    first_stmt = None
+    bad, undecided, taken_ok = [], [], 0
+    for combo in itertools.product((0, 7), repeat=4):
+        pv = {n: Form.num(v) for n, v in zip(names, combo)}
+        sub = Interp(pkg, assumptions={"show_progress": False, "input.noise": "none"}, param_classes={"input": "optical_signal"}, param_values=pv)
+        sub.run(fi)
+        h0 = None
+        for f, stmt, name, val, conds, depth in sub.assign_log:
+            if depth == 0 and name == "h":
+                h0, first_stmt = val, stmt
+                break
+        if h0 is None:
+            ctx.unknown("C08.4", fi, fi.node, "FIBER single-step shortcut", "initial step assignment not found")
+            return
+        zero = dict(zip(names, (c == 0 for c in combo)))
+        exact = zero["gamma"] or (zero["alpha"] and zero["beta_2"] and zero["beta_3"])
+        if isinstance(h0, Form) and h0 == S(length):
+            if exact:
+                taken_ok += 1
             else:
-                other = True
-        if "gamma" in zeroed:
-            ctx.holds("C08.4", fi, first, f"shortcut disjunct `{src_of(d)}`", "gamma == 0: the problem is linear, one step is exact")
-        elif other:
-            ctx.unknown("C08.4", fi, first, f"shortcut disjunct `{src_of(d)}`", "not a conjunction of `param == 0` tests")
-        elif deps <= zeroed:
-            ctx.holds("C08.4", fi, first, f"shortcut disjunct `{src_of(d)}`", f"D_op == 0 ({', '.join(sorted(deps))} all zero): one symmetric step is exact SPM")
-        else:
-            miss = sorted(deps - zeroed)
-            ctx.violation("C08.4", fi, first, f"shortcut disjunct `{src_of(d)}`",
-                          f"takes one full-length step although D_op also depends on {miss}: with gamma != 0 and {miss[0]} != 0 a single symmetric "
-                          "step is not exact (SPM with loss needs L_eff = (1-exp(-a L))/a; one step gives (1+exp(-a L))/2*L)")
+                bad.append(zero)
+        elif isinstance(h0, Form) and any(a[0] in ("phi",) or (a[0] == "fn" and a[1] == "ifexp") for a in h0.atoms()):
+            undecided.append(zero)
+    label = lambda z: ", ".join(f"{k}{'=0' if v else '!=0'}" for k, v in z.items())
+    if undecided:
+        ctx.unknown("C08.4", fi, first_stmt, "FIBER single-step shortcut", f"initial step not decided for [{label(undecided[0])}]")
+    elif bad:
+        ctx.violation("C08.4", fi, first_stmt, "FIBER: one full-length step taken although the step is not exact",
+                      f"for [{label(bad[0])}]" + (f" (and {len(bad) - 1} more combinations)" if len(bad) > 1 else "") + " the first step is the whole fibre: with gamma != 0 and a "
+                      "non-zero linear operator (loss or dispersion) a single symmetric step is not exact (SPM with loss needs L_eff = (1-exp(-a L))/a; one step gives (1+exp(-a L))/2*L)")
+    else:
+        ctx.holds("C08.4", fi, first_stmt, f"FIBER single-step shortcut: taken in {taken_ok} of 16 zero/non-zero combinations", "only when gamma == 0 or alpha = beta_2 = beta_3 = 0 (one step exact)")
+    # with gamma == 0 the shortcut must be taken (linear propagation is a single exact step)
+    miss = []
+    for combo in itertools.product((0, 7), repeat=3):
+        pv = {n: Form.num(v) for n, v in zip(names[:3], combo)}
+        pv["gamma"] = Form.num(0)
+        sub = Interp(pkg, assumptions={"show_progress": False, "input.noise": "none"}, param_classes={"input": "optical_signal"}, param_values=pv)
+        sub.run(fi)
+        h0 = next((val for f, stmt, name, val, conds, depth in sub.assign_log if depth == 0 and name == "h"), None)
+        if not (isinstance(h0, Form) and h0 == S(length)):
+            miss.append(combo)
+    ctx.check("C08.4", not miss, fi, first_stmt, "FIBER: gamma == 0 takes the single full-length step", "linear case handled in one exact step",
+              "with gamma == 0 the initial step is not the whole length (the adaptive formula divides by gamma)")
 
 
 def run(ctx):
